@@ -26,6 +26,7 @@
 #include "interrogate_request.h"
 
 #include <map>
+#include <set>
 
 class IndexRemapper;
 
@@ -163,6 +164,9 @@ private:
   // This records the set of database files that are still to be loaded.
   typedef std::vector<InterrogateModuleDef *> Requests;
   Requests _requests;
+
+  // Every module definition that has been handed to request_module().
+  std::set<InterrogateModuleDef *> _requested_defs;
 
   bool _error_flag;
   int _next_index;
